@@ -8,6 +8,7 @@ import Compass.Drv.C20
 import Compass.Drv.C16
 import Compass.Drv.C08
 import Compass.Drv.C14
+import Compass.Drv.C13
 
 /-- `driver <prop>`: reads one case per line on stdin, prints the model's canonical output line -/
 partial def loop (h : IO.FS.Stream) (out : IO.FS.Stream) (f : String → String) : IO Unit := do
@@ -36,6 +37,7 @@ def dispatch : String → Option (String → String)
   | "C16" => some Compass.Drv.C16.run
   | "C08" => some Compass.Drv.C08.run
   | "C14" => some Compass.Drv.C14.run
+  | "C13" => some Compass.Drv.C13.run
   | _ => none
 
 def main (args : List String) : IO UInt32 := do
